@@ -18,7 +18,7 @@ BB = "cozy_chess_types::bitboard::BitBoard"
 SQ = "cozy_chess_types::square::Square"
 
 ITER_TERMINALS = ("fold", "any", "all", "for_each", "find", "collect", "count")
-ITER_ADAPTORS = ("map", "filter", "copied", "cloned")
+ITER_ADAPTORS = ("map", "filter", "copied", "cloned", "flatten", "filter_map")
 OPT_COMBINATORS = ("map", "map_or", "and_then", "is_some_and", "unwrap_or", "filter", "map_or_else")
 BOOL_COMBINATORS = ("then_some", "then")
 
@@ -194,7 +194,7 @@ class Rewriter:
                 return None
             src, stages, blks = inner
             m = tail(dn)
-            if m in ("copied", "cloned"):
+            if m in ("copied", "cloned", "flatten"):
                 stages = stages + [(m, None)]
             else:
                 stages = stages + [(m, t["args"][1])]
@@ -226,6 +226,124 @@ class Rewriter:
             blk["stmts"].append(self.assign_pl(t["dest"], self.use(t["args"][0]), t["sp"]))
             blk["term"] = self.goto(t["t"], t["sp"])
 
+    def emit_stages(self, cur, x, stages, stage_clos, retry, sp):
+        """append the adaptor stages to block `cur` (element in local x); a skipped element jumps to `retry`.
+        -> (block to continue in, local holding the staged element)"""
+        for (sm, cop), cl in zip(stages, stage_clos):
+            if sm in ("copied", "cloned"):
+                if self.ty(x).startswith("&"):
+                    y = self.new_local(self.ty(x)[1:].strip(), "item")
+                    self.blocks[cur]["stmts"].append(self.assign(y, self.use(self.cp(x, ["deref"])), sp))
+                    x = y
+                continue
+            if sm == "map":
+                y = self.new_local(self.closure_ret_ty(cop), "mapped")
+                nxt = self.new_block([], None)
+                self.blocks[cur]["term"] = self.closure_call(cl, [self.mv(x)], y, nxt, sp, self.blocks[cur]["stmts"])
+                x = y
+                cur = nxt
+            elif sm == "filter":
+                rx = self.new_local("&" + self.ty(x))
+                tb = self.new_local("bool")
+                self.blocks[cur]["stmts"].append(self.assign(rx, {"k": "ref", "mut": False, "pl": self.pl(x)}, sp))
+                chk = self.new_block([], None)
+                self.blocks[cur]["term"] = self.closure_call(cl, [self.mv(rx)], tb, chk, sp, self.blocks[cur]["stmts"])
+                nxt = self.new_block([], None)
+                self.blocks[chk]["term"] = {"k": "switch", "discr": self.mv(tb), "dty": "bool", "arms": [[0, retry]],
+                                            "otherwise": nxt, "sp": sp}
+                cur = nxt
+            elif sm in ("flatten", "filter_map"):
+                # items that are Options (by value or by reference): None is skipped, Some yields its payload
+                if sm == "filter_map":
+                    y = self.new_local(self.closure_ret_ty(cop), "mapped")
+                    nxt = self.new_block([], None)
+                    self.blocks[cur]["term"] = self.closure_call(cl, [self.mv(x)], y, nxt, sp, self.blocks[cur]["stmts"])
+                    x = y
+                    cur = nxt
+                xty = self.ty(x)
+                byref = xty.startswith("&")
+                oty = xty[1:].strip() if byref else xty
+                if not oty.startswith("core::option::Option<"):
+                    oty = "core::option::Option<?>"
+                inner = oty[len("core::option::Option<"):-1]
+                d = self.new_local("isize")
+                base = ["deref"] if byref else []
+                self.blocks[cur]["stmts"].append(self.assign(d, {"k": "discr", "pl": self.pl(x, base), "of": oty}, sp))
+                U = self.new_block([], {"k": "unreachable", "sp": sp})
+                nxt = self.new_block([], None)
+                self.blocks[cur]["term"] = {"k": "switch", "discr": self.mv(d), "dty": "isize", "arms": [[0, retry], [1, nxt]],
+                                            "otherwise": U, "sp": sp}
+                proj = base + [{"dc": 1, "n": "Some", "of": oty}, {"f": 0, "n": "0", "of": oty, "ty": inner}]
+                if byref:
+                    y = self.new_local("&" + inner, "item")
+                    self.blocks[nxt]["stmts"].append(self.assign(y, {"k": "ref", "mut": False, "pl": self.pl(x, proj)}, sp))
+                else:
+                    y = self.new_local(inner, "item")
+                    self.blocks[nxt]["stmts"].append(self.assign(y, self.use(self.cp(x, proj)), sp))
+                x = y
+                cur = nxt
+        return cur, x
+
+    def source_item_ty(self, it):
+        ty = self.ty(it)
+        if "BitBoardIter" in ty or ty == BB:
+            return SQ
+        if ty.startswith("core::slice::iter::Iter<"):
+            inner = ty[len("core::slice::iter::Iter<"):-1]
+            inner = inner.split(", ", 1)[1] if inner.startswith("'") and ", " in inner else inner
+            return "&" + inner
+        return "?"
+
+    def rewrite_next_on_chain(self, bi):
+        """`chain.next()` inside an explicit loop, where chain = source.map(..).filter(..).flatten()...: pull from the
+        source and run the stages here; a skipped element pulls again"""
+        blk = self.blocks[bi]
+        t = blk["term"]
+        if t["t"] is None or blk.get("synthetic"):
+            return False
+        tr = self.trace_iter(t["args"][0])
+        if tr is None:
+            return False
+        it, stages, ablks = tr
+        if not stages:
+            return False
+        sp = t["sp"]
+        dest = t["dest"]
+        T = t["t"]
+        item_ty = self.source_item_ty(it)
+        for sm, _ in stages:
+            if sm in ("copied", "cloned") and item_ty == "?":
+                return False
+        pre = []
+        stage_clos = [self.closure_local(cop, pre, sp) if cop is not None else None for sm, cop in stages]
+        if pre:
+            # callables held in constants: stored once in front of the pull (re-executed per pull, harmless)
+            blk["stmts"].extend(pre)
+        opt_of = "core::option::Option<%s>" % item_ty
+        n0 = self.new_local(opt_of)
+        d = self.new_local("isize")
+        x = self.new_local(item_ty, "item")
+        none = {"k": "agg", "ak": "adt", "adt": "core::option::Option", "variant": "None", "vi": 0, "targs": [], "fields": [], "ops": []}
+        U = self.new_block([], {"k": "unreachable", "sp": sp})
+        N = self.new_block([self.assign_pl(dest, none, sp)], self.goto(T, sp))
+        some_proj = [{"dc": 1, "n": "Some", "of": opt_of}, {"f": 0, "n": "0", "of": opt_of, "ty": item_ty}]
+        S = self.new_block([self.assign(x, self.use(self.cp(n0, some_proj)), sp)], None)
+        A = self.new_block([self.assign(d, {"k": "discr", "pl": self.pl(n0), "of": opt_of}, sp)],
+                           {"k": "switch", "discr": self.mv(d), "dty": "isize", "arms": [[0, N], [1, S]], "otherwise": U, "sp": sp})
+        cur, y = self.emit_stages(S, x, stages, stage_clos, bi, sp)
+        self.blocks[cur]["stmts"].append(self.assign_pl(dest, {"k": "agg", "ak": "adt", "adt": "core::option::Option", "variant": "Some",
+                                                              "vi": 1, "targs": [], "fields": ["0"], "ops": [self.mv(y)]}, sp))
+        self.blocks[cur]["term"] = self.goto(T, sp)
+        t2 = dict(t)
+        t2["dest"] = self.pl(n0)
+        t2["t"] = A
+        t2["callee"] = {"fn": ITER + "next", "targs": [self.ty(it)], "res": NEXT_RES, "rargs": []}
+        blk["term"] = t2
+        blk["synthetic"] = True
+        self.neutralise(ablks, sp)
+        self.count += 1
+        return True
+
     def rewrite_iter_terminal(self, bi):
         blk = self.blocks[bi]
         t = blk["term"]
@@ -240,9 +358,7 @@ class Rewriter:
         sp = t["sp"]
         dest = t["dest"]
         T = t["t"]
-        item_ty = "?"
-        if "BitBoardIter" in self.ty(it) or self.ty(it) == BB:
-            item_ty = SQ
+        item_ty = self.source_item_ty(it)
         if m == "collect":
             targs = t["callee"].get("targs") or []
             if len(targs) < 2 or targs[1] != BB:
@@ -251,7 +367,7 @@ class Rewriter:
             return False
         # copied/cloned over anything but a by-value source is not modelled
         for sm, _ in stages:
-            if sm in ("copied", "cloned") and item_ty != SQ:
+            if sm in ("copied", "cloned") and item_ty == "?":
                 return False
         pre = []          # statements executed once, before the loop
         H_stmts = []
@@ -303,27 +419,7 @@ class Rewriter:
         E = self.new_block([self.assign(x, self.use(self.cp(n, some_proj)), sp)], None)
         self.blocks[Sw]["term"] = {"k": "switch", "discr": self.mv(d), "dty": "isize", "arms": [[0, X], [1, E]],
                                    "otherwise": U, "sp": sp}
-        cur = E
-        # stages
-        for (sm, cop), cl in zip(stages, stage_clos):
-            if sm in ("copied", "cloned"):
-                continue
-            if sm == "map":
-                y = self.new_local(self.closure_ret_ty(cop), "mapped")
-                nxt = self.new_block([], None)
-                self.blocks[cur]["term"] = self.closure_call(cl, [self.mv(x)], y, nxt, sp, self.blocks[cur]["stmts"])
-                x = y
-                cur = nxt
-            elif sm == "filter":
-                rx = self.new_local("&" + self.ty(x))
-                tb = self.new_local("bool")
-                self.blocks[cur]["stmts"].append(self.assign(rx, {"k": "ref", "mut": False, "pl": self.pl(x)}, sp))
-                chk = self.new_block([], None)
-                self.blocks[cur]["term"] = self.closure_call(cl, [self.mv(rx)], tb, chk, sp, self.blocks[cur]["stmts"])
-                nxt = self.new_block([], None)
-                self.blocks[chk]["term"] = {"k": "switch", "discr": self.mv(tb), "dty": "bool", "arms": [[0, H]],
-                                            "otherwise": nxt, "sp": sp}
-                cur = nxt
+        cur, x = self.emit_stages(E, x, stages, stage_clos, H, sp)
         # terminal body
         if m == "fold":
             a2 = self.new_local(self.ty(acc))
@@ -517,6 +613,9 @@ class Rewriter:
                     if self.rewrite_iter_terminal(bi):
                         changed = True
                         break
+                if iters and dn == ITER + "next" and self.rewrite_next_on_chain(bi):
+                    changed = True
+                    break
                 if options:
                     m = opt_method(dn)
                     if m and self.rewrite_option(bi, m):
@@ -536,7 +635,7 @@ def desugar(j, raw_bodies, iters=True, options=True):
         t = blk["term"]
         if t["k"] == "call":
             dn = decl_of(t)
-            if is_iter_decl(dn, ITER_TERMINALS) or opt_method(dn) or bool_method(dn):
+            if is_iter_decl(dn, ITER_TERMINALS) or is_iter_decl(dn, ITER_ADAPTORS) or opt_method(dn) or bool_method(dn):
                 interesting = True
                 break
     if not interesting:
